@@ -424,6 +424,13 @@ type c10View struct {
 func mkView(label string, lines []string, outs []string, want []string, nont bool) c10View {
 	var b strings.Builder
 	b.WriteString("TransformApp:\n  !view helper(n <: int) -> int:\n    n -> (:\n      out = n + 1\n      twice = n * 2\n    )\n")
+	// recursive views: a call to the view itself sits inside an operand of each comparison / arithmetic /
+	// boolean operator, so the same expression node is evaluated while an evaluation of it is in progress
+	b.WriteString("  !view recNe(n <: int) -> int:\n    n -> (:\n      out = if n == 0 then false else recNe(n - 1).out != true\n    )\n")
+	b.WriteString("  !view recEq(n <: int) -> int:\n    n -> (:\n      out = if n == 0 then true else recEq(n - 1).out == false\n    )\n")
+	b.WriteString("  !view recSum(n <: int) -> int:\n    n -> (:\n      out = if n == 0 then 0 else n + recSum(n - 1).out\n    )\n")
+	b.WriteString("  !view recAnd(n <: int) -> int:\n    n -> (:\n      out = if n == 0 then true else (n > 0) && recAnd(n - 1).out\n    )\n")
+	b.WriteString("  !view recGt(n <: int) -> int:\n    n -> (:\n      out = if n == 0 then 0 else if recGt(n - 1).out > 1 then 0 else recGt(n - 1).out + 1\n    )\n")
 	b.WriteString("  !view main(p <: int, q <: string) -> int:\n    p -> (:\n")
 	for _, l := range lines {
 		b.WriteString("      " + l + "\n")
@@ -598,6 +605,27 @@ func c10Views(tier string) []c10View {
 					[]string{"o0", "o1", "o2", "o3"}, []string{r.canon(), v.canon(), r.canon(), v.canon()}, true))
 				n++
 			}
+		}
+	}
+	// E7: recursion depth 0..4 through each operator
+	{
+		type rc struct {
+			view string
+			want []string
+		}
+		for i, r := range []rc{
+			{"recNe", []string{"false", "true", "false", "true", "false"}},
+			{"recEq", []string{"true", "false", "true", "false", "true"}},
+			{"recSum", []string{"0", "1", "3", "6", "10"}},
+			{"recAnd", []string{"true", "true", "true", "true", "true"}},
+			{"recGt", []string{"0", "1", "2", "0", "1"}},
+		} {
+			var lines, outs []string
+			for n := 0; n <= 4; n++ {
+				lines = append(lines, fmt.Sprintf("o%d = %s(%d).out", n, r.view, n))
+				outs = append(outs, fmt.Sprintf("o%d", n))
+			}
+			views = append(views, mkView(fmt.Sprintf("E7/%d", i), lines, outs, r.want, true))
 		}
 	}
 	// E4: nested transforms over list / set / map with each result type
